@@ -3,7 +3,7 @@
    Wrap*.v = models of the logic the momo::stdish wrappers add on top of the nested momo containers.
    Both are run (extracted) against the real momo::stdish AND libstdc++ containers on every check. *)
 From Coq Require Import ZArith List Permutation.
-From C06 Require Import Spec SpecProofs WrapOrdered WrapEq WrapErase.
+From C06 Require Import Spec SpecProofs WrapOrdered WrapEq WrapErase History.
 Import ListNotations.
 
 (* ===== (1) the L0 specs satisfy the std contract ===== *)
@@ -158,6 +158,36 @@ Theorem C06_unordered_multimap_eq_iff_pairs_permutation : forall l r,
   (mm_eq l r = true <-> Permutation (mm_pairs l) (mm_pairs r)).
 Proof. exact mm_eq_iff_pairs_permutation. Qed.
 Print Assumptions C06_unordered_multimap_eq_iff_pairs_permutation.
+
+(* ===== (2b) all call sequences ===== *)
+
+(* For EVERY sequence of insert / hinted insert / erase(key) / erase(iterator) / erase(first,last) / clear calls on
+   a stdish set, multiset, map or multimap (ismap, multi), starting from the empty container: every returned position
+   and flag and the final sequence are those of the std specification, and the content stays sorted. *)
+Theorem C06_ordered_history_refines : forall ismap multi ops,
+  run (wrap_step ismap multi) [] ops = run (spec_step multi) [] ops /\
+  sorted multi (snd (run (spec_step multi) [] ops)).
+Proof. exact ordered_history_refines. Qed.
+Print Assumptions C06_ordered_history_refines.
+
+(* For the unordered_multimap states reached by ANY two histories of insert / erase(key) / erase_if / erase(iterator) /
+   clear (value-less keys included), operator== is true exactly when the two hold the same multiset of pairs. *)
+Theorem C06_unordered_multimap_eq_all_histories : forall ops1 ops2,
+  mm_eq (mm_run ops1) (mm_run ops2) = true <-> Permutation (mm_pairs (mm_run ops1)) (mm_pairs (mm_run ops2)).
+Proof. exact mm_eq_all_histories. Qed.
+Print Assumptions C06_unordered_multimap_eq_all_histories.
+
+(* the nested multimap operations, seen through mm_pairs, are the L0 multimap operations *)
+Theorem C06_unordered_multimap_step_abstraction : forall s o,
+  match o with
+  | MIns k v => Permutation (mm_pairs (mm_step s o)) (snd (u_insert true (k, v) (mm_pairs s)))
+  | MEraseKey k => mm_pairs (mm_step s o) = snd (u_erase_key k (mm_pairs s))
+  | MEraseIf m r => mm_pairs (mm_step s o) = filter (fun e => negb (fst e mod m =? r)%Z) (mm_pairs s)
+  | MErasePair _ _ => True
+  | MClear => mm_pairs (mm_step s o) = []
+  end.
+Proof. exact mm_step_abstraction. Qed.
+Print Assumptions C06_unordered_multimap_step_abstraction.
 
 (* ===== (3) non-vacuity: the pre-fix shapes of the three repaired functions violate the same statements ===== *)
 Theorem C06_unordered_erase_range_prefix_refuted : exists l first last ps,
